@@ -334,6 +334,19 @@ func findConnect(p *Prog) *connectAnchors {
 			if path := brokerPath(resolveFree(v), crecv, cidx); "" != path {
 				return AV{K: avPtr, S: path}
 			}
+			/* A function value made by the caller: a literal, a method
+			value, the cancel function context.With* returned. */
+			if _, isFn := v.Type().Underlying().(*types.Signature); isFn {
+				w := stripConv(v, false)
+				if f, _ := closureOf(w); nil != f {
+					return avNonNil
+				}
+				if ex, ok := w.(*ssa.Extract); ok {
+					if c, ok := ex.Tuple.(*ssa.Call); ok && strings.HasPrefix(calleeName(c.Common()), "context.With") && 1 == ex.Index {
+						return avNonNil
+					}
+				}
+			}
 			return avU
 		}
 		for k, pa := range a.Fn.Params {
